@@ -361,3 +361,51 @@ package caldav
 //@   loop 1 invariant I1c: gcoCalls >= 0 && (gcoCalls > 0 ==> gcoReq == &dataReq) && (#i > 0 ==> gcoCalls > 0)
 //@   loop 1 invariant I1d: multiget.Prop != nil && decodedOk(multiget.Prop, "calendarDataReq") ==> dataRelC(dataReq, decoded(multiget.Prop, "calendarDataReq"))
 //@   loop 1 invariant I2: forall j :: 0 <= j && j < #i ==> answersHrefC(resps[j], h.Backend, ctx, multiget.Hrefs[j].Path, &dataReq)
+
+//@ -- ---------------------------------------------------------------------------------------
+//@ -- C12: a request path is classified solely by its depth below the mount prefix.
+//@ -- levelOf is the depth arithmetic; the lemmas C12_L0..L5 state, from the property, what it has to yield for
+//@ -- every mount prefix, every choice of segments and both spellings (with / without trailing slash).
+//@ spec mountOK(p string) bool = p == "" || (canonRooted(p) && p != "/")
+//@ spec trimmed(prefix string, reqPath string) string = hasPrefix(pclean(reqPath), prefix) ? substr(pclean(reqPath), len(prefix), len(pclean(reqPath)) - len(prefix)) : pclean(reqPath)
+//@ spec relOf(prefix string, reqPath string) string = hasPrefix(trimmed(prefix, reqPath), "/") ? trimmed(prefix, reqPath) : "/" + trimmed(prefix, reqPath)
+//@ spec levelOf(prefix string, reqPath string) int = relOf(prefix, reqPath) == "/" ? 0 : nsep(relOf(prefix, reqPath))
+//@ spec spelled(reqPath string, c string) bool = reqPath == c || reqPath == slashed(c)
+//@ lemma C12_L0: forall p string, q string :: mountOK(p) && ((q == p && p != "") || q == slashed(p)) ==> levelOf(p, q) == 0
+//@ lemma C12_L1: forall p string, q string, s1 string :: mountOK(p) && segOK(s1) && spelled(q, mjoin(p, child("", s1))) ==> levelOf(p, q) == 1
+//@ lemma C12_L2: forall p string, q string, s1 string, s2 string :: mountOK(p) && segOK(s1) && segOK(s2) && spelled(q, mjoin(p, child(child("", s1), s2))) ==> levelOf(p, q) == 2
+//@ lemma C12_L3: forall p string, q string, s1 string, s2 string, s3 string :: mountOK(p) && segOK(s1) && segOK(s2) && segOK(s3)
+//@   | && spelled(q, mjoin(p, child(child(child("", s1), s2), s3))) ==> levelOf(p, q) == 3
+//@ lemma C12_L4: forall p string, q string, s1 string, s2 string, s3 string, s4 string :: mountOK(p) && segOK(s1) && segOK(s2) && segOK(s3) && segOK(s4)
+//@   | && spelled(q, mjoin(p, child(child(child(child("", s1), s2), s3), s4))) ==> levelOf(p, q) == 4
+//@ lemma C12_L5: forall p string, q string, s1 string, s2 string, s3 string, s4 string, s5 string :: mountOK(p) && segOK(s1) && segOK(s2) && segOK(s3) && segOK(s4) && segOK(s5)
+//@   | && spelled(q, mjoin(p, child(child(child(child(child("", s1), s2), s3), s4), s5))) ==> levelOf(p, q) == 5
+//@ func caldav.(*backend).resourceTypeAtPath(b, reqPath) (t)
+//@   requires R1: b != nil
+//@   ensures LV: int(t) == levelOf(b.Prefix, reqPath)
+
+//@ -- C12: level -> backend operation, with the request path unchanged; C13: a locally refused request is a 4xx
+//@ -- and reaches no mutating backend method.
+//@ spec servedCB(b *backend) bool = b != nil && b.Backend != nil && mountOK(b.Prefix)
+//@ spec lvlC(b *backend, r *http.Request) int = levelOf(b.Prefix, r.URL.Path)
+//@ spec local4xx(e error) bool = !fromBackend(e) && !fromEnv(e) && 400 <= httpCode(e) && httpCode(e) < 500
+//@ func caldav.(*backend).Mkcol(b, r) (err)
+//@   requires R1: servedCB(b) && validReq(r)
+//@   allocates
+//@   -- collection creation is accepted only at collection depth and refused with 403 elsewhere
+//@   ensures M1: lvlC(b, r) != 3 ==> httpCode(err) == 403 && local4xx(err) && mutations == old(mutations) && ccalCalls == old(ccalCalls)
+//@   ensures M2: lvlC(b, r) == 3 && (err == nil || fromBackend(err)) ==> ccalCalls == old(ccalCalls) + 1 && ccalCal != nil && ccalCal.Path == r.URL.Path && mutations == old(mutations) + 1
+//@   ensures M3: err != nil ==> fromBackend(err) || (local4xx(err) && mutations == old(mutations))
+//@ func caldav.(*backend).Delete(b, r) (err)
+//@   requires R1: servedCB(b) && validReq(r)
+//@   ensures D1: dcoCalls == old(dcoCalls) + 1 && dcoPath == r.URL.Path && mutations == old(mutations) + 1
+//@   -- the operation belonging to the level: only a calendar object can be deleted through DeleteCalendarObject
+//@   ensures D2-level: lvlC(b, r) != 4 ==> mutations == old(mutations)
+//@   ensures D3: err != nil ==> fromBackend(err)
+//@ func caldav.(*backend).Options(b, r) (caps, allow, err)
+//@   requires R1: servedCB(b) && validReq(r)
+//@   allocates
+//@   ensures O1: lvlC(b, r) != 4 ==> err == nil && gcoCalls == old(gcoCalls) && len(allow) == 5
+//@   ensures O2: lvlC(b, r) == 4 ==> gcoCalls == old(gcoCalls) + 1 && gcoPath == r.URL.Path
+//@   ensures O3: err != nil ==> fromBackend(err)
+//@   ensures O4: mutations == old(mutations)
